@@ -234,6 +234,12 @@ pub fn check_gaussian_nb(c: &Case, obs: &mut Obs) {
     };
     obs.class(if k == 2 { "gnb_2_classes" } else { "gnb_3_classes" });
     let scores = |x: &[f64]| gnb_scores(&c.train, &lab, k, smoothing, x);
+    // a class without spread in some feature (variance + smoothing = 0) makes the likelihood NaN:
+    // not a well-posed training set (only reachable through shrinking)
+    if !scores(&c.train[0]).iter().all(|v| v.is_finite()) {
+        obs.skip("skipped_degenerate_training_data");
+        return;
+    }
     let spec = Spec::labels(|x, a, b| score_tie(&scores(x), a, b));
     let pred = any_layout::<_, Array1<usize>>(&model);
     if let Some(info) = driver::run(obs, c, &pred, &spec) {
